@@ -5,9 +5,10 @@
    pugixml are neither modelled nor proved: their behaviour is validated document by document by props/C08.py.
 
    NOT PROVED (checked by the run only, or not at all):
-   - soundness of the reference XML parser in the other direction (every accepted text is an XML 1.0 text of the
-     subset): cross-checked on every run against xml.etree (expat) on produced, re-rendered and mutated texts.  For
-     JSON both directions are theorems (T_C08_json_accepts_exactly); the run still compares with Python's json;
+   - the reference XML parser is characterised exactly (T_C08_xml_accepts_exactly), and that characterisation is wider
+     than XML 1.0 in two places (T_C08_xml_wider_than_standard: white space around the document element may be spelled
+     by character references / CDATA sections; the pseudo-attribute values of the XML declaration may contain
+     references).  pugixml never writes either; the run also parses every produced document with xml.etree (expat);
    - T_C08_load_invariant as ONE statement over all free choices of a rendering (proved separately: member order at
      every depth for every target type, T_C08_load_member_order_any; numeric spelling per number; white space and
      string spellings do not reach the DOM by T_C08_json_accepts_exactly, for the reference parser, not for RapidJSON);
@@ -15,8 +16,12 @@
      validated by the re-rendering loop; T_C08_options_passed covers the JSON string / stream paths of the model (the
      XML flags and the layout the writers produce from the indent options are observed: every pretty document is checked
      for the configured padding character and count per nesting level);
-   - the XML adapter model has no theorems of its own in this file (see Properties_C01jx.v for its defects). *)
-From BS Require Import Base UtfSpec UtfModel JxJsonSpec JxJsonProofs JxJsonSound JxXmlSpec JxXmlProofs JxModel JxProofs JxMemberOrder.
+   - the XML adapter model has no theorems of its own in this file (see Properties_C01jx.v for its defects);
+   - validation error paths: xml_node::path() of pugixml (third party) is taken to be the names of the ancestor-or-self
+     elements, a separator before each (x_render); the run compares every reported XML path with that.  For XML there is
+     no standard to compare the paths with (T_C08_paths_xml_example shows what they cannot tell apart). *)
+From BS Require Import Base UtfSpec UtfModel JxJsonSpec JxJsonProofs JxJsonSound JxXmlSpec JxXmlProofs JxXmlSound JxModel JxProofs JxMemberOrder
+  JxPathModel JxPathProofs.
 From Coq Require Import Permutation.
 Local Open Scope N_scope.
 
@@ -94,6 +99,36 @@ Theorem T_C08_xml_parser_total : (forall s, xml_parse_cps s <> XFuel) /\
 Proof. split; [exact xml_parse_cps_total | exact xml_parse_total]. Qed.
 Print Assumptions T_C08_xml_parser_total.
 
+(* The parser accepts exactly the texts described by `xrenders` (JxXmlSound.v), and returns the tree they denote.
+   xrenders is generative, production by production, and mentions none of the parsing functions: after end-of-line
+   normalisation (2.11) the text is an optional XML declaration (xmldecl_spells) followed by markup and character data
+   (xtext): start-, end- and empty-element tags with attributes (either quote, white space where the grammar allows it,
+   values normalised per 3.3.3, distinct names), character data with each character literal or as a predefined entity /
+   decimal / hexadecimal character reference (never the three characters that close a CDATA section), CDATA sections,
+   comments (no double hyphen) and processing instructions (target not xml in any case) anywhere; adjacent character data
+   is one text (merge_txt); the tokens form the tree (xtoks: an element without children is a start/end pair or an
+   empty-element tag), with white space allowed around the document element.  Code points and bytes (strict UTF-8). *)
+Theorem T_C08_xml_accepts_exactly :
+  (forall s0 x, xml_parse_cps s0 = XOk x <-> xrenders (norm_eol s0) x) /\
+  (forall bytes x, xml_parse bytes = XOk x <-> exists cps, utf8_decode bytes = Some (Some cps) /\ xrenders (norm_eol cps) x) /\
+  (forall s x, xrenders s x -> xwf x).
+Proof. split; [exact xml_cps_exact | split; [exact xml_parse_exact | exact xrenders_wf]]. Qed.
+Print Assumptions T_C08_xml_accepts_exactly.
+
+(* where that description (hence the parser) is wider than XML 1.0: white space before or after the document element
+   spelled by a character reference or a CDATA section (Misc allows literal white space only), and a reference inside a
+   value of the XML declaration (VersionNum, EncName, yes/no are literal).  The texts: &#32;<a/>,  <![CDATA[ ]]><a/>,
+   <a/><![CDATA[ ]]>,  <?xml version='&#49;.0'?><a/>.  No other difference was found when the description was written
+   against the recommendation; this one is a limitation of the reference parser, not of the library *)
+Example T_C08_xml_wider_than_standard :
+  xml_parse_cps [38; 35; 51; 50; 59; 60; 97; 47; 62] = XOk (XElem [97] [] []) /\
+  xml_parse_cps [60; 33; 91; 67; 68; 65; 84; 65; 91; 32; 93; 93; 62; 60; 97; 47; 62] = XOk (XElem [97] [] []) /\
+  xml_parse_cps [60; 97; 47; 62; 60; 33; 91; 67; 68; 65; 84; 65; 91; 32; 93; 93; 62] = XOk (XElem [97] [] []) /\
+  xml_parse_cps [60; 63; 120; 109; 108; 32; 118; 101; 114; 115; 105; 111; 110; 61; 39; 38; 35; 52; 57; 59; 46; 48; 39;
+                 63; 62; 60; 97; 47; 62] = XOk (XElem [97] [] []).
+Proof. exact (conj wider_prolog_reference (conj wider_prolog_cdata (conj wider_epilog_cdata wider_decl_reference))). Qed.
+Print Assumptions T_C08_xml_wider_than_standard.
+
 Example T_C08_xml_example :
   xml_parse_cps (xml_print_cps (XElem [97] [([98], [34; 60; 10; 38])] [XText [60; 38; 62; 13; 93; 93; 62]; XElem [99] [] []; XText [32]])) =
     XOk (XElem [97] [([98], [34; 60; 10; 38])] [XText [60; 38; 62; 13; 93; 93; 62]; XElem [99] [] []; XText [32]]) /\
@@ -109,17 +144,8 @@ Theorem T_C08_finalize_checks_writer : forall d, finalize_reports finalize_json 
 Proof. exact finalize_checked_reports. Qed.
 Print Assumptions T_C08_finalize_checks_writer.
 
-(* for the record, the code before that repair (finding F26, fixed): the statement was false, exactly through
-   non-finite doubles *)
-Theorem T_C08_finalize_unchecked_refuted : exists d, ~ finalize_reports finalize_json_unchecked d.
-Proof. exact finalize_unchecked_refuted. Qed.
-Print Assumptions T_C08_finalize_unchecked_refuted.
-
-Theorem T_C08_finalize_unchecked_outside : forall d, has_nonfinite d = false -> finalize_reports finalize_json_unchecked d.
-Proof. exact finalize_unchecked_outside. Qed.
-Print Assumptions T_C08_finalize_unchecked_outside.
-
-(* vector<double>{1, NaN, 2}: an exception now; the three tokens "[", 1.0, "," were handed out before *)
+(* vector<double>{1, NaN, 2}: an exception; for the record, the code before the repair (finding F26, fixed; the Accept
+   result dropped: finalize_json_unchecked) handed out the three tokens "[", 1.0, "," *)
 Example T_C08_finalize_example : finalize_json f26_witness = FError /\
   finalize_json_unchecked f26_witness = FDoc [WTok TLBrack; WDbl 0x3FF0000000000000; WTok TComma].
 Proof. exact f26_document. Qed.
@@ -134,11 +160,12 @@ Theorem T_C08_load_invariant_refuted : forall strtod i2d,
 Proof. exact spelling_refuted. Qed.
 Print Assumptions T_C08_load_invariant_refuted.
 
-(* outside the defect class (the two spellings are typed alike by the reader: both integer spellings in 64-bit range,
-   or both doubles on which the library's strtod agrees) they load identically into every target *)
+(* outside the defect class, a boolean (spelling_defect: the reader types the two spellings differently - one as a
+   64-bit integer and one as a double, or as two doubles on which the library's strtod disagrees, or one is too big)
+   they load identically into every target *)
 Theorem T_C08_load_invariant_outside : forall strtod i2d o t l l',
-  classify_num strtod l = classify_num strtod l' -> load_number strtod i2d o t l = load_number strtod i2d o t l'.
-Proof. exact spelling_outside. Qed.
+  spelling_defect strtod l l' = false -> load_number strtod i2d o t l = load_number strtod i2d o t l'.
+Proof. exact spelling_outside_b. Qed.
 Print Assumptions T_C08_load_invariant_outside.
 
 (* member order: exchanging two neighbouring members with different names (hence, by repetition, any reordering of
@@ -183,6 +210,62 @@ Example T_C08_load_member_order_example : forall i2d,
    load_json i2d mkT t d = Ok (VObj [([109], VObj [([97], VObj [([120], VInt 1); ([121], VStr [117])]); ([98], VObj [([120], VInt 2); ([121], VStr [118])])]); ([110], VBool true)])).
 Proof. intros i2d. split; [exact (map_error_depends_on_order i2d) | exact (member_order_example i2d)]. Qed.
 Print Assumptions T_C08_load_member_order_example.
+
+(* ---------------------------------------------------------------- validation error paths (GetPath of the scopes) *)
+
+(* JxPathModel.v: vload_json is the load of a class with validators (Required, Range) as the archive performs it: the
+   scopes (jscope: parent, parent key, for an array scope the cursor) are opened as rapidjson_archive.h opens them,
+   jscope_path is RapidJsonScopeBase::GetPath / RapidJsonArrayScope::GetPath, a failing validator files its message
+   under GetPath() + '/' + key (key_value_proxy.h), the result is the map of the ValidationException.
+   vload_json_char is the same walk with the path computed from the LOCATION of the member (the list of names and
+   zero-based indices that lead to it) by the explicit formula impl_pointer: every name verbatim after a separator,
+   nothing at all for an empty name, every index plus one.
+   For every target, every document, every nesting the two coincide: that formula is what the scopes report. *)
+Theorem T_C08_paths_json_characterised : forall i2d o t d, vload_json i2d o t d = vload_json_char i2d o t d.
+Proof. exact json_paths_characterised. Qed.
+Print Assumptions T_C08_paths_json_characterised.
+
+(* vload_json_spec: the same walk, each message filed under the JSON Pointer (RFC 6901: pointer; escapes ~0 ~1, zero
+   based indices) of the failing member, which is what the library's documentation says a JSON path is.
+   Outside the defect class - no sequence anywhere in the target (type_ok .. false), and only plain names (not empty,
+   no '/' and no '~') in the classes of the target and in the document - the reported map is that one *)
+Theorem T_C08_paths_json_rfc6901_outside : forall i2d o t d,
+  type_ok plain_key false t = true -> doc_ok plain_key d = true -> vload_json i2d o t d = vload_json_spec i2d o t d.
+Proof. exact json_paths_rfc6901_outside. Qed.
+Print Assumptions T_C08_paths_json_rfc6901_outside.
+
+(* inside the class the statement is false (findings J48, J49): items are numbered from one (the cursor of the array
+   scope has already passed the item when the item's own scope is open): /2/v for /1/v; names are not escaped and an
+   empty name on the way is dropped: /a/b, /dict/v, /m~n for /a~1b, /dict//v, /m~0n; hence two different failing
+   members can be reported under one path (third conjunct: member v of the entry named "" and the entry named v) *)
+Example T_C08_paths_json_refuted : forall i2d,
+  (let d := RArr [RObj [([118], RInt 1)]; RObj [([118], RInt 10)]] in
+   vload_json i2d o_skip (VVec v_leaf) d = VDone (Some VNull) [([47; 50; 47; 118], [MRange])] /\
+   vload_json_spec i2d o_skip (VVec v_leaf) d = VDone (Some VNull) [([47; 49; 47; 118], [MRange])]) /\
+  (let d := RObj [([108; 105; 115; 116], RArr []); ([97; 47; 98], RInt 10); ([109; 126; 110], RInt 10);
+                  ([100; 105; 99; 116], RObj [([], RObj [([118], RInt 10)])])] in
+   vload_json i2d o_skip v_mid d =
+     VDone (Some VNull) [([47; 97; 47; 98], [MRange]); ([47; 100; 105; 99; 116; 47; 118], [MRange]); ([47; 109; 126; 110], [MRange])] /\
+   vload_json_spec i2d o_skip v_mid d =
+     VDone (Some VNull) [([47; 97; 126; 49; 98], [MRange]); ([47; 100; 105; 99; 116; 47; 47; 118], [MRange]); ([47; 109; 126; 48; 110], [MRange])]) /\
+  vload_json i2d o_skip (VCls [([100], FElem, false, false, VMap v_leaf)])
+    (RObj [([100], RObj [([], RObj [([118], RInt 10)]); ([118], RObj [([118], RInt 3); ([119], RInt 11)])])]) =
+  VDone (Some VNull) [([47; 100; 47; 118], [MRange]); ([47; 100; 47; 118; 47; 119], [MRange])].
+Proof.
+  intros i2d. split; [exact (json_path_index_refuted i2d) | split; [exact (json_path_escape_refuted i2d) | exact (json_path_collision i2d)]].
+Qed.
+Print Assumptions T_C08_paths_json_refuted.
+
+(* XML (vload_xml): the path is the names of the elements from the document element to the element that holds the
+   field, then the key (x_render) - by construction of the model, compared with the implementation on every run.
+   Items of a sequence are not told apart: two failing items share one path and their messages are merged *)
+Example T_C08_paths_xml_example : forall xstrtod xstrtof,
+  vload_xml xstrtod xstrtof o_skip (VVec v_leaf)
+    (XElem [97; 114; 114; 97; 121] [] [XElem [111; 98; 106; 101; 99; 116] [] [XElem [118] [] [XText [49; 48]]];
+                                       XElem [111; 98; 106; 101; 99; 116] [] [XElem [118] [] [XText [49; 49]]]]) =
+  VDone (Some VNull) [([47; 97; 114; 114; 97; 121; 47; 111; 98; 106; 101; 99; 116; 47; 118], [MRange; MRange])].
+Proof. exact xml_path_items_share. Qed.
+Print Assumptions T_C08_paths_xml_example.
 
 (* ---------------------------------------------------------------- the output options reach the writer *)
 
